@@ -43,6 +43,9 @@ def translate(repo):
         ok = False
     items.append(typed("cleanup_hook_once_guard", "bool", coq_bool(ok)))
     items.append(typed("cleanup_clears_in_finally", "bool", coq_bool(ok and in_finally)))
+    # the clears include the table of pending request callbacks (what makes "nothing stays registered after the end" true)
+    all_clears = cu[4:] if (len(cu) > 3 and cu[3] == HOOK) else ([u(x) for x in cf[3].finalbody] if len(cf) > 3 and isinstance(cf[3], ast.Try) else [])
+    items.append(typed("cleanup_clears_callbacks", "bool", coq_bool("self._request_callbacks.clear()" in all_clears)))
     items.append(typed("cleanup_default_anyway", "bool", coq_bool(u(find_func(cls, "_cleanup").args).endswith("_anyway=True"))))
     items.append(shape("_cleanup", func_shape(find_func(cls, "_cleanup"))))
     hc = [u(x) for x in strip_doc(find_func(cls, "_handle_close").body)]
